@@ -29,10 +29,13 @@ class Case(object):
     boundary  : list of (at, kind, x): points exactly ON finite bounds of the (box) support - faces and corners; `at` in
                 {"lower", "upper", "mixed"} says which bounds the point touches.  They are judged by the object's own logd
                 (observe_boundary): no claim is made here whether the family counts its boundary to the support
+    pieces    : Pieces registry of the user-supplied callables built into the object (facet "user-supplied pieces return
+                fresh / stored arrays / views of their input"); its stored arrays are checked to be unchanged afterwards
     """
 
     def __init__(self, component, facets, obj, inside, outside=(), fd_targets=None, ref_logd=None,
-                 int_inside=(), int_outside=(), boundary=()):
+                 int_inside=(), int_outside=(), boundary=(), pieces=None):
+        self.pieces = pieces        # Pieces: the user-supplied callables of this object (aliasing facet), or None
         self.component = component
         self.facets = dict(facets)
         self.obj = obj
@@ -43,6 +46,89 @@ class Case(object):
         self.boundary = list(boundary)
         self.fd_targets = [obj] if fd_targets is None else list(fd_targets)
         self.ref_logd = ref_logd
+
+
+# ------------------------------------------------------------------------------------------
+# facet "user-supplied pieces return fresh arrays / stored arrays / views of their input"
+# ------------------------------------------------------------------------------------------
+ALIASES = ("fresh", "stored", "view")
+
+
+class Stored(object):
+    """A user callable that hands back STORED arrays (a cache on the user's side): the value for given arguments is
+    computed once and kept; the same array object is returned every time these arguments recur (constant=True: the value
+    does not depend on the arguments - one stored array, returned on every call).  A pristine copy of every stored array is
+    kept aside so that `altered()` can tell afterwards whether somebody wrote into the user's arrays."""
+
+    def __init__(self, f, name, constant=False):
+        self.f, self.name, self.constant = f, name, constant
+        self.memo = {}
+        self.calls = 0
+        self.hits = 0
+
+    @staticmethod
+    def _key(args, kwargs):
+        parts = []
+        for tag, a in [(None, a) for a in args] + sorted(kwargs.items()):
+            a = np.asarray(a)
+            parts.append((tag, a.dtype.str, a.shape, a.tobytes()))
+        return tuple(parts)
+
+    def __call__(self, *args, **kwargs):
+        self.calls += 1
+        key = () if self.constant else self._key(args, kwargs)
+        hit = self.memo.get(key)
+        if hit is None:
+            val = np.array(self.f(*args, **kwargs), dtype=float)     # storage owned by the user's cache
+            hit = self.memo[key] = (val, val.copy())
+        else:
+            self.hits += 1
+        return hit[0]
+
+    def function(self):
+        """plain function with the signature of the wrapped callable (the library reads argument names off signatures)"""
+        import functools
+
+        @functools.wraps(self.f)
+        def stored_result(*args, **kwargs):
+            return self(*args, **kwargs)
+        return stored_result
+
+    def altered(self):
+        """-> list of (now, pristine) for the stored arrays that no longer hold what the user stored"""
+        return [(val, orig) for val, orig in self.memo.values()
+                if val.shape != orig.shape or not np.array_equal(val, orig, equal_nan=True)]
+
+
+class Pieces(object):
+    """Registry of the user-supplied callables built into one object under test, and their aliasing behaviour:
+      fresh  : every callable returns a new array per call (what the harness' closed forms naturally do)
+      stored : every callable returns stored arrays (class Stored)
+      view   : every callable that has such a form returns a view of (or simply) one of its input arguments, the others
+               behave as 'fresh'"""
+
+    def __init__(self, alias="fresh"):
+        if alias not in ALIASES:
+            raise ValueError(alias)
+        self.alias = alias
+        self.stored = []
+        self.names = []
+        self.nview = 0
+
+    def wrap(self, f, name, view=None, constant=False):
+        self.names.append(name)
+        if self.alias == "stored":
+            s = Stored(f, name, constant)
+            self.stored.append(s)
+            return s.function()
+        if self.alias == "view" and view is not None:
+            self.nview += 1
+            return view
+        return f
+
+    def altered(self):
+        """-> list of (piece name, now, pristine) over all stored arrays of all pieces"""
+        return [(s.name, val, orig) for s in self.stored for val, orig in s.altered()]
 
 
 def _logd_scalar(obj, x):
@@ -150,6 +236,24 @@ def represent(x, rep):
     raise ValueError(rep)
 
 
+def hand_over(x, rep):
+    """the object actually handed to gradient(): a private copy of the point in the requested representation"""
+    return np.array(x, dtype=float, copy=True) if rep is None else represent(x, rep)
+
+
+def point_altered(given, x, rep):
+    """did gradient() change the evaluation point it was given (an array / list owned by the caller) in place?"""
+    want = hand_over(x, rep)
+    if isinstance(given, np.ndarray):
+        if given.shape != want.shape or given.dtype != want.dtype or not np.array_equal(given, want):
+            return "gradient() altered the evaluation point it was given in place: %s became %s%s" % (
+                np.array2string(np.asarray(want, float).ravel(), precision=6), np.array2string(np.asarray(given, float).ravel(), precision=6),
+                _given(rep))
+    elif isinstance(given, list) and given != want:
+        return "gradient() altered the list it was given as evaluation point in place: %r became %r" % (want, given)
+    return None
+
+
 def _given(rep):
     return "" if rep is None else " [evaluation point given as %s]" % rep
 
@@ -162,10 +266,14 @@ def observe(case, kind, x, fd, fd_eps, rep=None, cache=None):
             Richardson derivative of the object's logd at the float64 version of the point
     cache : dict shared by the representations of one point (the reference is computed once)"""
     x = np.array(x, dtype=float, copy=True)
+    xin = hand_over(x, rep)
     try:
-        g = case.obj.gradient(np.array(x, copy=True) if rep is None else represent(x, rep))
+        g = case.obj.gradient(xin)
     except Exception as e:
         return {"status": "refused", "why": type(e).__name__}
+    alt = point_altered(xin, x, rep)
+    if alt is not None:
+        return {"status": "bad", "cls": "input-altered", "msg": alt, "x": x}
     a = as_vector(g)
     if a is None:
         return {"status": "bad", "cls": "none", "msg": "gradient() returned %r instead of raising or returning a vector%s"
@@ -218,10 +326,14 @@ def observe(case, kind, x, fd, fd_eps, rep=None, cache=None):
 
 def observe_outside(case, kind, x, rep=None):
     x = np.array(x, dtype=float, copy=True)
+    xin = hand_over(x, rep)
     try:
-        g = case.obj.gradient(np.array(x, copy=True) if rep is None else represent(x, rep))
+        g = case.obj.gradient(xin)
     except Exception as e:
         return {"status": "refused", "why": type(e).__name__}
+    alt = point_altered(xin, x, rep)
+    if alt is not None:
+        return {"status": "bad", "cls": "input-altered", "msg": alt, "x": x}
     a = as_vector(g)
     if a is None:
         return {"status": "bad", "cls": "none", "msg": "gradient() returned %r outside the support%s" % (g, _given(rep)), "x": x}
@@ -338,10 +450,14 @@ def observe_boundary(case, kind, x, fd, fd_eps):
       logd(x) NaN / raises: skipped.
     Returns the same records as observe(); additionally 'branch' in {'nonfinite', 'finite'} for coverage."""
     x = np.array(x, dtype=float, copy=True)
+    xin = hand_over(x, None)
     try:
-        g = case.obj.gradient(np.array(x, copy=True))
+        g = case.obj.gradient(xin)
     except Exception as e:
         return {"status": "refused", "why": type(e).__name__}
+    alt = point_altered(xin, x, None)
+    if alt is not None:
+        return {"status": "bad", "cls": "input-altered", "msg": alt, "x": x}
     a = as_vector(g)
     if a is None:
         return {"status": "bad", "cls": "none", "x": x,
